@@ -91,6 +91,16 @@ def main():
         # PRELUDE pseudo-property (DESIGN §3.2): every NumPy/SciPy primitive the hand models rely on is differentially tested
         # against the real library on every run (exact comparison, ~3000 requests, ~1 s); its disagreements are correspondence
         # disagreements of this run (labels 'PRELUDE np.*')
+        _open = [k for k in load_known() if k.get('property') == prop and k.get('status') == 'open']
+        _matchers = getattr(mod, 'KNOWN_MATCHERS', {})
+
+        def _known_filter(f):
+            for k in _open:
+                m = _matchers.get(k['id'])
+                if m is not None and m(f):
+                    return k['id']
+            return None
+        ctx.known_filter = _known_filter
         try:
             import prelude_check
             prelude_check.run_prelude(ctx)
@@ -111,20 +121,15 @@ def main():
     matchers = getattr(mod, 'KNOWN_MATCHERS', {})
     printed_known = []
     unexplained = []
-    for f in ctx.oracle_failures:
-        hit = None
-        for k in open_known:
-            m = matchers.get(k['id'])
-            try:
-                if m is not None and m(f):
-                    hit = k
-                    break
-            except Exception:
-                pass
-        if hit is None:
+    # a known finding is a behaviour of the pinned code, which the model reproduces: an oracle failure on an input where the model
+    # and the implementation DISAGREE is therefore a different violation and is not attributed to a known finding
+    corr_inputs = {json.dumps(c.get('inputs'), sort_keys=True) for c in ctx.corr_failures if c.get('inputs') is not None}
+    unexplained = list(ctx.oracle_failures)
+    known_hits = getattr(ctx, 'known_hits', [])
+    for f in known_hits:
+        if json.dumps(f.get('inputs'), sort_keys=True) in corr_inputs:
+            f['not_known_because'] = f"matches {f.pop('known')} but model and implementation disagree on this input"
             unexplained.append(f)
-        else:
-            f['known'] = hit['id']
     # every open finding's witness is replayed by the property module (mod.known_witness) and printed if it still fails
     for k in open_known:
         still = True
@@ -192,7 +197,8 @@ def main():
         'correspondence_cases': dict(sorted(ctx.corr_count.items())),
         'correspondence_disagreements': len(ctx.corr_failures),
         'oracle_evaluations': dict(sorted(ctx.oracle_count.items())),
-        'oracle_failures': len(ctx.oracle_failures),
+        'oracle_failures': len(unexplained),
+        'oracle_failures_explained_by_known_findings': dict(sorted(getattr(ctx, 'known_count', {}).items())),
         'max_rounding_gap': {k: v for k, v in sorted(ctx.max_gap.items())},
         'not_proved': list(getattr(mod, 'NOT_PROVED', [])),
         'known_findings_printed': printed_known,
@@ -214,8 +220,8 @@ def main():
         print(v)
     print(f"{prop} tier={args.tier} seed={seed} theorems={cov['discharged']}/{cov['obligations']} "
           f"cases={ctx.evaluations} distinct_nontrivial={len(ctx.hashes_nontrivial)} "
-          f"corr_disagreements={len(ctx.corr_failures)} oracle_failures={len(ctx.oracle_failures)} "
-          f"known={len(printed_known)} wall={wall:.1f}s -> {'FAIL' if violations else 'ok'}")
+          f"corr_disagreements={len(ctx.corr_failures)} oracle_failures={len(unexplained)} "
+          f"known={len(printed_known)}({sum(getattr(ctx, 'known_count', {}).values())} cases) wall={wall:.1f}s -> {'FAIL' if violations else 'ok'}")
     return 1 if violations else 0
 
 
